@@ -26,7 +26,7 @@ func (e *Engine) setupIntrinsics() {
 	for _, p := range []string{"strings", "bytes", "unicode/utf8", "strconv", "sort", "slices", "maps", "math", "math/bits", "cmp",
 		"path/filepath", "internal/filepathlite", "internal/stringslite", "internal/bytealg", "iter",
 		"github.com/go-spring/stdlib/flatten", "github.com/go-spring/stdlib/ordered", "github.com/go-spring/stdlib/errutil",
-		logPath, logPath + "/expr"} {
+		logPath, logPath + "/expr", "github.com/antlr4-go/antlr/v4"} {
 		e.initAllow[p] = true
 	}
 	in := e.intrinsics
